@@ -101,7 +101,10 @@ func (m *UpstreamClusterController) syncUpstreamCluster(obj interface{}) (syncqu
 		return syncqueue.Result{}, nil
 	}
 
-	_, err := m.lister.Get(cluster.Name)
+	// the queued obj is only used to tell which cluster to sync, it may have been
+	// superseded while it was waiting in the queue (e.g. requeued after a failure),
+	// so always apply the latest object known by the lister
+	latest, err := m.lister.Get(cluster.Name)
 	clusterName := strings.ToLower(cluster.Name)
 	if errors.IsNotFound(err) {
 		// clean cluster
@@ -111,6 +114,7 @@ func (m *UpstreamClusterController) syncUpstreamCluster(obj interface{}) (syncqu
 	if err != nil {
 		return syncqueue.Result{}, err
 	}
+	cluster = latest
 
 	if err := m.checkUpstreamServerNameConflict(cluster); err != nil {
 		klog.Errorf("ckeck cluster %v failed: %v", cluster.Name, err)
